@@ -429,7 +429,7 @@ def run_concrete(harness, values, bounds=None, known=()):
 
 
 def explore(harness, bounds=None, timeout=60.0, per_path=20.0, max_paths=10**7, float_model='ieee',
-            known=(), only=None, want_goals=(), stop_on_first=True, n_samples=3, smt_timeout=None):
+            known=(), only=None, want_goals=(), stop_on_first=True, n_samples=3, smt_timeout=None, replay_passed=False):
     """Explore all paths of harness(sym). Returns a result dict."""
     root = RootNode()
     t0 = time.process_time()
@@ -477,6 +477,13 @@ def explore(harness, bounds=None, timeout=60.0, per_path=20.0, max_paths=10**7, 
                 else:
                     status = VerificationStatus.CONFIRMED
                     res['passed'] += 1
+                    if replay_passed:
+                        # differential guard: the inputs of a path that passed under the engine are run on plain CPython as well
+                        # (the engine models some library features differently, e.g. it bypasses functools.lru_cache)
+                        try:
+                            passed_vals = sym.model_values(budget_s=20)
+                        except Inconclusive as e:
+                            res['inconclusive'].append('replay of a passed path: ' + str(e))
                     # coverage goals and samples
                     newgoals = [g for g in sym.goals if g not in res['goals']]
                     if newgoals or len(res['samples']) < n_samples:
@@ -510,6 +517,11 @@ def explore(harness, bounds=None, timeout=60.0, per_path=20.0, max_paths=10**7, 
                 res['nontrivial'] += 1
             _, exhausted = space.bubble_status(CallAnalysis(status))
         res['paths'] += 1
+        if replay_passed and failure is None and status == VerificationStatus.CONFIRMED and 'passed_vals' in dir():
+            outcome, cinfo = run_concrete(harness, passed_vals, bounds, known)
+            if outcome == 'fail':
+                failure = (passed_vals, {'type': 'none', 'msg': 'the path passed under the engine; the same inputs fail on plain CPython', 'frames': []})
+            del passed_vals
         if failure is not None:
             vals, info = failure
             outcome, cinfo = run_concrete(harness, vals, bounds, known)
